@@ -1,7 +1,7 @@
 (* Executable message-level model of AsyncFIXConnection._process_resend (asyncfix/connection.py)
    together with what it calls: Journaler.recover_messages / persist_msg (set_seq_num is no longer called by the handler),
-   send_msg (state gates, the codec's sequence-number selection, write, drain, journal write after
-   the write - skipped for PossDupFlag=Y and for SequenceReset-GapFill: the replies to a ResendRequest), Codec.decode of the journaled frames, should_replay.  It follows the Python line by
+   send_msg (state gates, the codec's sequence-number selection, journal write BEFORE the transport
+   write and drain - skipped for PossDupFlag=Y and for SequenceReset-GapFill: the replies to a ResendRequest), Codec.decode of the journaled frames, should_replay.  It follows the Python line by
    line, including its defects.  No proofs here: see AF.Lemmas.ResendL and AF.Props.C06.
 
    Level of abstraction.  A frame / journaled outbound row is
@@ -40,6 +40,9 @@ Definition ST_NET_ESTABLISHED : Z := Eval vm_compute in
   state_num [78; 69; 84; 87; 79; 82; 75; 95; 67; 79; 78; 78; 95; 69; 83; 84; 65; 66; 76; 73; 83; 72; 69; 68]%N.
 Definition ST_LOGON_SENT : Z := Eval vm_compute in
   state_num [76; 79; 71; 79; 78; 95; 73; 78; 73; 84; 73; 65; 76; 95; 83; 69; 78; 84]%N.
+
+Definition ST_LOGON_RECV : Z := Eval vm_compute in
+  state_num [76; 79; 71; 79; 78; 95; 73; 78; 73; 84; 73; 65; 76; 95; 82; 69; 67; 86]%N.
 
 Definition MT_LOGON : str := Eval vm_compute in msg_type_val [76; 79; 71; 79; 78]%N.
 Definition MT_LOGOUT : str := Eval vm_compute in msg_type_val [76; 79; 71; 79; 85; 84]%N.
@@ -145,7 +148,10 @@ Definition send_gates (m : msg) (s : st) : res :=
   else if cstate s =? ST_NET_ESTABLISHED then
     if negb (str_eqb (m_type m) MT_LOGON) && negb (str_eqb (m_type m) MT_LOGOUT) then Exc EConnection s
     else Ok (set_initiator (state_set ST_LOGON_SENT s))
-  else if initiator s && (cstate s =? ST_LOGON_SENT) && negb (str_eqb (m_type m) MT_LOGOUT)
+  else if initiator s then
+    (if (cstate s =? ST_LOGON_SENT) && negb (str_eqb (m_type m) MT_LOGOUT) then Exc EConnection s else Ok s)
+  (* an acceptor that has not replied to the Logon yet may only send Logon / Logout *)
+  else if (cstate s =? ST_LOGON_RECV) && negb (str_eqb (m_type m) MT_LOGON) && negb (str_eqb (m_type m) MT_LOGOUT)
        then Exc EConnection s
   else Ok s.
 
@@ -180,11 +186,17 @@ Definition send_msg (m : msg) (s : st) : res :=
           let k := clock s + 1 in
           let fr := mkRow n (m_type m) (time_str k)
                           (filter (fun f => negb (header_skipped (fst f))) (m_fields m)) in
-          (* writer.write(frame); await drain() *)
-          let s' := mkSt (cstate s) (initiator s) (testreq_pending s) nout' (sout s) k (rows s)
-                         (wire s ++ [fr]) (calls s) (states s) in
-          (* replies to a ResendRequest are not journaled: the journal keeps the original messages *)
-          if is_resend_reply m then Ok s' else persist fr s'
+          let s1 := mkSt (cstate s) (initiator s) (testreq_pending s) nout' (sout s) k (rows s)
+                         (wire s) (calls s) (states s) in
+          (* journal first (a journal error leaves nothing on the wire); replies to a ResendRequest
+             are not journaled: the journal keeps the original messages *)
+          match (if is_resend_reply m then Ok s1 else persist fr s1) with
+          | Exc e s' => Exc e s'
+          | Ok s2 =>
+              (* writer.write(frame); await drain() *)
+              Ok (mkSt (cstate s2) (initiator s2) (testreq_pending s2) (nout s2) (sout s2) (clock s2) (rows s2)
+                       (wire s2 ++ [fr]) (calls s2) (states s2))
+          end
       end
   end.
 
